@@ -33,7 +33,7 @@ def run(ctx):
     ctx.rule = ("random tubes (r 10-25, t/r 0.1-0.2, nr 3-5, nt 4-8, nz 2-4, 1D/2D/3D), elastic NEML materials with constant, affine "
                 "or kinked expansion coefficient and constant or temperature-dependent Young's modulus, 2-4 step histories of nodal temperature (radial/circumferential/axial variation, "
                 "uniform, outer-surface-only, slow drifts of a few mK per step), pressure and top displacement; creeping/plastic shipped models at 850-950 K for the causality variants; variants: altered future, trial solves, first state created without a time index, refined "
-                "steps, forced sub-increments, free expansion.  one case = one tube run; all non-trivial")
+                "steps, forced sub-increments, free expansion, tubes without thermal results.  one case = one tube run; all non-trivial")
     ctx.trusted += ["scikit-fem assembly and interpolation, NEML SmallStrainElasticity (the finite-element solve is run, not modelled)",
                     "translator harness/translators/strainbook.py"]
     translators.import_all()
@@ -83,6 +83,11 @@ def run(ctx):
         ni = copy.deepcopy(c)
         ni["init"] = "noindex"
         jobs.append(("noindex", b, add(ni, "noindex")))
+        # the tube as the only spring of a network whose ends both follow prescribed displacements (no free network dof)
+        nw = copy.deepcopy(c)
+        nw["network"] = True
+        nw.pop("probe", None)
+        jobs.append(("network", b, add(nw, "network")))
         if c["material"]["alpha_kind"] != "kink":
             jobs.append(("refined", b, add(refine(c, rng.choice([2, 3])), "refined")))
             fd = copy.deepcopy(c)
@@ -133,6 +138,13 @@ def run(ctx):
         c["dtop"] = d
         c["pressure"] = None if i % 2 else [0.0] * len(c["times"])
         jobs.append(("free", add(c, "free"), None))
+    # tubes without thermal results: their temperature never changes, whatever their initial temperature is
+    for i in range(ctx.budget(3, 9)):
+        c = gen_geometry(rng, dim=[1, 2, 3][i % 3])
+        c["material"] = gen_material(rng, alpha=["const", "affine", "kink"][i % 3])
+        c.update(gen_history(rng, c))
+        c["temps"] = None
+        jobs.append(("base", add(c, "nothermal"), None))
     results = run_impl_parallel("struct_run", [to_impl(c, i) for i, c in enumerate(cases)], workers=12, timeout=1500)
     findings, terms, term_case = [], [], []
 
@@ -164,11 +176,13 @@ def run(ctx):
         same = np.all(T == T[0], axis=0)
         if np.any(th["_xx"][:, same] != 0.0):
             bad(i, "thermal strain %g at a point whose temperature never changed" % np.max(np.abs(th["_xx"][:, same])))
+        if c["kind_tag"] == "nothermal" and any(np.any(th[s] != 0.0) for s in SUFF):
+            bad(i, "thermal strain %g in a tube without thermal results (initial temperature %g)" % (np.max(np.abs(th["_xx"])), c["T0"]))
         if c["material"]["alpha_kind"] == "const":
             a = c["material"]["alpha_v"][0]
             if not np.allclose(th["_xx"], a * (T - T[0]), rtol=1e-12, atol=1e-16):
                 bad(i, "constant coefficient: thermal strain differs from alpha * (T - T0) by %g" % np.max(np.abs(th["_xx"] - a * (T - T[0]))))
-        if "mesh" in r:
+        if "mesh" in r and c["temps"] is not None:
             conn = np.array(r["mesh"]["t"])
             nodal = np.array(c["temps"])                         # (ntime, nnodes)
             lo = np.min(nodal[:, conn], axis=2)[:, :, None]
@@ -221,6 +235,15 @@ def run(ctx):
                 if not np.array_equal(quad(a, n)[1:], quad(b, n)[1:]):
                     bad(b, "%s differs by %g when the first state is created without a time index (init_state(tube, mat))"
                         % (n, np.max(np.abs(quad(a, n)[1:] - quad(b, n)[1:]))))
+                    break
+        elif kind == "network":
+            E = cases[a]["material"]["E"]
+            for n in names:
+                x, y = quad(a, n), quad(b, n)
+                sc = E * 1e-3 if n.startswith("stress") else (1.0 if n == "temperature" else 1e-3)
+                if x.shape != y.shape or not np.allclose(x, y, rtol=0, atol=1e-9 * sc):
+                    bad(b, "%s stored by a spring network that prescribes both tube ends differs by %g from the tube solved with the same end displacements"
+                        % (n, np.max(np.abs(x - y)) if x.shape == y.shape else float("nan")))
                     break
         elif kind == "trial":
             for n in names:
